@@ -695,6 +695,29 @@ def rule_dispatch(ck, N, run):
         good = [c for c in hc if len(c.args) == 2 and q.dotted(c.args[0]) == lp.target.id and q.dotted(c.args[1]) == "self." + mp]
         ck.ob("C40.dispatch", disp, lp, len(good) == 1 and len(hc) == 1 and not lp.orelse and not any(isinstance(x, (ast.Break, ast.Return)) for st in lp.body for x in q.walk_local(st)),
               "every %s fd is dispatched once through self.%s (no early break, right map)" % (what, mp), construct="for %s -> self.%s" % (what, mp))
+        # unconditional: between the loop head and the dispatch call there is no condition other than "this fd is still in
+        # its own map" (which the helper tests anyway) and no `continue`
+        if len(good) == 1:
+            dpm = q.parent_map(disp.node)
+            guards = []
+            child = good[0]
+            for a in q.ancestors(dpm, good[0]):
+                if a is lp:
+                    break
+                if isinstance(a, ast.If):
+                    in_body = any(child is s_ or any(child is x_ for x_ in ast.walk(s_)) for s_ in a.body)
+                    guards.append((a.test, in_body))
+                elif isinstance(a, (ast.While, ast.For)):
+                    guards.append((a, True))
+                child = a
+            conts = [x for st in lp.body for x in q.walk_local(st) if isinstance(x, ast.Continue)]
+            own_map = ("%s in self.%s" % (lp.target.id, mp), "%s not in self.%s" % (lp.target.id, mp))
+            foreign = [g for g, in_body in guards if not (isinstance(g, ast.AST) and not isinstance(g, (ast.While, ast.For)) and q.unparse(g) == own_map[0 if in_body else 1])]
+            if conts and not foreign:
+                raise AnalysisError("%s: `continue` inside the %s dispatch loop (shape not recognised)" % (disp.qualname, what))
+            ck.ob("C40.dispatch", disp, foreign[0] if foreign and isinstance(foreign[0], ast.expr) else lp, not foreign,
+                  "every fd of the %s set reaches the handler lookup unconditionally: its dispatch does not depend on %s" % (what, q.unparse(foreign[0])[:60] if foreign and isinstance(foreign[0], ast.expr) else "anything else"),
+                  construct="unconditional-dispatch %s%s" % (what, (" guard " + q.normalize_construct(foreign[0], q.local_names(disp.node))) if foreign and isinstance(foreign[0], ast.expr) else ""))
     ck.floor("C40.dispatch", loops, 2, "dispatch loops")
     for hname in sorted(N["helpers"]):
         h = ck.func(F, "%s.%s" % (CLS, hname))
@@ -1106,6 +1129,7 @@ MUTANTS = [
     ("remove_writer does not wake the selector", _m("SelectorThread.remove_writer", remove_stmts(lambda st: "_wake_selector" in _src(st))), "C40.wake-on-change"),
     ("close(): _closed set before the wake (wake becomes a no-op)", _m("SelectorThread.close", _closed_first), "C40.shutdown-order"),
     ("restart the select only when something was ready", _m("SelectorThread._handle_select", replace_stmt(lambda st: isinstance(st, ast.Expr) and "_start_select" in _src(st), lambda st: [parse_stmt("if rs or ws:\n    self._start_select()")])), "C40.restart-once"),
+    ("seeded C40-adv6: writable fds that are also readable are skipped", _m("SelectorThread._handle_select", replace_stmt(lambda st: isinstance(st, ast.Expr) and "self._writers" in _src(st), lambda st: [parse_stmt("if w not in rs:\n    self._handle_event(w, self._writers)")])), "C40.dispatch"),
     ("writable fds looked up in the reader map", _m("SelectorThread._handle_select", replace_expr(lambda n: isinstance(n, ast.Attribute) and n.attr == "_writers", lambda n: parse_expr("self._readers"))), "C40.dispatch"),
     ("removed fd raises KeyError out of the dispatch", _m("SelectorThread._handle_event", _untry(lambda st: True)), "C40.removed-fd"),
     ("hand off live dict views instead of copies", _m("SelectorThread._start_select", replace_expr(lambda n: isinstance(n, ast.Call) and isinstance(n.func, ast.Name) and n.func.id == "list", lambda n: n.args[0], limit=2)), "C40.snapshot"),
